@@ -1,6 +1,6 @@
 (* C12 — wire decoding shared by the two streams (Extract.v, be/Extract.v); no proofs. *)
 From Coq Require Import List ZArith Bool.
-From Verif Require Import Lib.Wire C12.Model C12.Spec.
+From Verif Require Import Lib.Wire C12.Model C12.Spec C12.Reconcile.
 Import ListNotations.
 Open Scope Z_scope.
 
@@ -70,6 +70,7 @@ Fixpoint hyps_all (e : env) (st : state) (ops : list op) : bool :=
        | OAdj paths procs milli =>
            be_hyps e (sfs st) paths (get (sfs st) (hd 0 paths)) (adj_new procs milli (get (sfs st) (hd 0 paths)))
        | OExpire _ => true
+       | OCall ls => hyps_call e (sfs st) ls
        end)
       && hyps_all e (fst (step_op e st o)) r
   end.
@@ -84,7 +85,8 @@ Definition nontrivial_of (c : case) : bool :=
      (1 is retired: the literal "-1" written to cpu.max by the merge pass on cgroup v2 is not a
         violation of the property's text; finding_sig never returns 1)
      2  cgroup v2: cpu.max is rewritten although its quota is unchanged
-     3  BE cpuset: a cgroup that already holds the target cpuset is rewritten (to old ∪ new and back) *)
+     3  BE cpuset: a cgroup that already holds the target cpuset is rewritten (to old ∪ new and back)
+     (calls of the modelled caller cgreconcile, [OCall], have no known shape) *)
 Fixpoint offenders3 (e : env) (fs0 fs : fmap) (us : list updater) (ws : list write) : list (write * bool) :=
   match ws with
   | [] => []
@@ -142,6 +144,15 @@ Fixpoint hist_sig (e : env) (fs : fmap) (ops : list op) (obs : list bobs) : Z :=
           if be_hyps e fs paths o new then
             let c := prop_code e fs [be_updaters paths new] ws fin in
             if c =? 0 then hist_sig e fin r obs' else known_shape_be e fs (be_updaters paths new) ws c
+          else 0
+      end
+  | OCall ls :: r =>
+      match obs with
+      | [] => 0
+      | (ws, fin) :: obs' =>
+          if hyps_call e fs ls then
+            let c := prop_code e fs ls ws fin in
+            if c =? 0 then hist_sig e fin r obs' else 0
           else 0
       end
   end.
@@ -304,5 +315,78 @@ Definition decode_be (inp : list Z) : case :=
       mkCase (mk_env ver nd 1 par [0]) (mk_fs start)
              (match t2 with nops :: t3 => dec_be_ops (Z.to_nat nd) par paths (Z.to_nat nops) t3 | [] => [] end)
              (Z.to_nat nd)
+  | _ => empty_case
+  end.
+
+(* ---------- stream "reconcile" ----------
+   input : ver np {type nc}*np start[nd*3] nops ops...        (directories and files: see Reconcile.v)
+           op 0 = round  : 0 nodeMem cfg[9] {active {req lim}*nc}*np
+           op 1 = expire : 1 fileIndex how
+           op 2 = restart: 2 *)
+Fixpoint dec_shape (n : nat) (l : list Z) : shape * list Z :=
+  match n with
+  | O => ([], l)
+  | S n' =>
+      match l with
+      | typ :: nc :: t => let '(sh, r) := dec_shape n' t in ((typ, Z.to_nat nc) :: sh, r)
+      | _ => ([], [])
+      end
+  end.
+
+Fixpoint dec_pairs (n : nat) (l : list Z) : list (Z * Z) * list Z :=
+  match n with
+  | O => ([], l)
+  | S n' =>
+      match l with
+      | a :: b :: t => let '(ps, r) := dec_pairs n' t in ((a, b) :: ps, r)
+      | _ => ([], [])
+      end
+  end.
+
+Fixpoint dec_rpods (sh : shape) (l : list Z) : list rpod * list Z :=
+  match sh with
+  | [] => ([], l)
+  | (_, nc) :: sh' =>
+      match l with
+      | act :: t =>
+          let '(cs, r) := dec_pairs nc t in
+          let '(ps, r') := dec_rpods sh' r in (mkRPod (act =? 1) cs :: ps, r')
+      | [] => ([], [])
+      end
+  end.
+
+Fixpoint dec_rc_ops (sh : shape) (files : list Z) (n : nat) (l : list Z) : list op :=
+  match n with
+  | O => []
+  | S n' =>
+      match l with
+      | tag :: t =>
+          if tag =? 0 then
+            match t with
+            | node :: t1 =>
+                let '(cfg, t2) := take_n 9 t1 in
+                let '(pods, t3) := dec_rpods sh t2 in
+                OCall (rc_levels sh (mkRRound node cfg pods)) :: dec_rc_ops sh files n' t3
+            | [] => []
+            end
+          else if tag =? 1 then
+            match t with
+            | f :: _ :: t' => OExpire f :: dec_rc_ops sh files n' t'
+            | _ => []
+            end
+          else map OExpire files ++ dec_rc_ops sh files n' t
+      | [] => []
+      end
+  end.
+
+Definition decode_rc (inp : list Z) : case :=
+  match inp with
+  | ver :: np :: t =>
+      let '(sh, t1) := dec_shape (Z.to_nat np) t in
+      let nf := (rc_ndirs sh * 3)%nat in
+      let '(start, t2) := take_n nf t1 in
+      let files := map Z.of_nat (seq 0 nf) in
+      mkCase (rc_env ver sh) (mk_fs start)
+             (match t2 with nops :: t3 => dec_rc_ops sh files (Z.to_nat nops) t3 | [] => [] end) nf
   | _ => empty_case
   end.
